@@ -110,6 +110,9 @@ MAIN_STEP = {
     # ------------------------------------------------------------------ C04 (E2): the node denotes exactly [a, b)
     "E2-abs-start": "implies(attached(), old.ABSK[pk()] + hit.start == at(pre_L2, hit.start))",
     "E2-length": "implies(attached(), hit.end - hit.start == at(pre_L2, hit.end) - at(pre_L2, hit.start))",
+    # (helper, used through the cut rule) the parent context's case-folded value is the case-folded slice it denotes
+    "E2-parent-lower-view": "implies(attached(), lower(hit.parent.value) == lower(old(node).value)[old.ABSK[pk()] : old.EXTK[pk()]] "
+    "and old.EXTK[pk()] == old.ABSK[pk()] + len(hit.parent.value) and 0 <= old.ABSK[pk()] and old.EXTK[pk()] <= len(old(node).value))",
     # ... and its original slice equals text[a:b] up to ASCII letter case
     "E2-original-is-the-text-covered": "implies(attached(), lower(hit.parent.value[hit.start : hit.end]) == lower(old(node).value)[at(pre_L2, hit.start) : at(pre_L2, hit.end)])",
     "E2-context-value-is-the-text-covered": "implies(is_context(), lower(hit.value) == lower(old(node).value)[at(pre_L2, hit.start) : at(pre_L2, hit.end)] "
@@ -187,7 +190,7 @@ contract(
             },
             inv=MAIN_INV,
             transition=MAIN_STEP,
-            cut=["E2-context-value-is-the-text-covered"],
+            cut=["E1-parent-and-bounds", "E2-abs-start", "E2-length", "E2-parent-lower-view", "E2-context-value-is-the-text-covered"],
             hints=["full-slice: lower(old(node).value)[0 : len(lower(old(node).value))] == lower(old(node).value)"],
             latch_hints=[
                 "lower-commutes-with-slice: implies(hit.parent is not None and 0 <= hit.start <= hit.end <= len(hit.parent.value), "
